@@ -25,5 +25,15 @@ CLAIMS = {
   "text": "Decides structural necessary conditions over the five pairing models in ark-ec and the hand-written CP6-782 pairing: identity pairs are removed individually before line evaluation (three models lack the filter: recorded known findings with a panicking input), per-chunk Miller accumulators do not fold captured target-field values (chunk-count independence; the BW6 violation was repaired), G2 preparation and Miller loop iterate the same bit string (mixed new/without_leading_zeros policy discharged per shipped configuration from the constant table), final exponentiation yields None only via inverse(), pairing-output scalar multiplication passes the full scalar. Bilinearity, non-degeneracy, prepared = unprepared and the hard-part exponent chains are not decided.",
   "note": "Trusted: rustc MIR, adaptor tables (element-wise vs prefix-truncating) in rules/c06.py. Known findings listed in known_findings.json are genuine and reproduced (MNT4/MNT6/CP6-782 e(P, O) panics).",
  },
+ "C05": {
+  "technique": "MIR typestate/pairing rules: lock-step mutation of paired buffers (dominance + post-dominance), length-policy dataflow, flush structure, window recombination",
+  "text": "Decides structural necessary conditions of the MSM entry points: buffers handed together to an msm kernel are mutated in lock-step on every path (ChunkedPippenger, reusable chunk buffers); checked msm compares both lengths and reports the minimum, both bucket kernels truncate both inputs to the common length; Pippenger accumulators fold a guarded msm into `result` and clear the buffer; window recombination doubles c times with the same c that sized the buckets. That any entry point returns the sum (digit extraction, bucket indexing: run-time index arithmetic) is not decided.",
+  "note": "Trusted: rustc MIR; mutator/view/kernel name tables in rules/c05.py.",
+ },
+ "C14": {
+  "technique": "effect/ownership analysis of closures handed to rayon (captured types Freeze/Copy, no sync primitives), reduction-type table, serial-vs-parallel kernel agreement, chunk-independence dataflow; on the `parallel` feature build",
+  "text": "Decides, on the crates compiled with their parallel features, the interleaving-independence half of C14: every closure executed by rayon (~50) captures only data without interior mutability and reaches no synchronisation primitive; every parallel reduction is over a commutative monoid (frozen table of 10 sites), par_bridge feeds order-insensitive consumers; each of the ~40 functions whose body differs between serial and parallel builds reaches the same crate-local kernels; chunked reductions do not fold captured accumulator-typed values (independence of the number of chunks). Correctness of per-chunk offsets, tails and thresholds for every thread count is arithmetic on run-time values and is not decided.",
+  "note": "Trusted: rustc MIR and Send/Sync checking; the ACM type table and sync-marker list in rules/c14.py. `Copy` is taken to imply absence of UnsafeCell.",
+ },
 }
 NOT_APPLICABLE = {}
